@@ -5,7 +5,7 @@ import json, os, re, sys
 here = os.path.dirname(os.path.dirname(os.path.abspath(__file__)))
 rows, e1, e2 = [], 0, 0
 for line in open(os.path.join(here, 'seeded', 'RESULTS.txt')):
-    m = re.match(r'(C\d\d_\d) rc=(\d) violations=(\d+) undecided=(\d+) :: (.*)', line.strip())
+    m = re.match(r'(C\d\d_\d) rc=(\d) violations=(\d+) undecided=(\d+) ::\s*(.*)', line.strip())
     if not m:
         continue
     sid, rc, nv, und, rest = m.groups()
